@@ -25,7 +25,10 @@ def judge (j : Json) : R Verdict := do
   let mut spec : List String := []
   let mut tags : List String := [gen]
   let model := Tii.interfaceOf [] dParties dEnv
-  let dups := (dTxs.map fun (_, ps, _) => Tii.dupNames [] ps).flatten ++ Tii.dupNames [] dParties ++ Tii.dupNames [] dEnv
+  -- transaction names are compared exactly (Pay and pay are two transactions), everything else up to case
+  let txNames := dTxs.map (·.1)
+  let repeatedTx := (txNames.zip (List.range txNames.length)).filterMap fun (n, i) => if (txNames.take i).contains n then some n else none
+  let dups := (dTxs.map fun (_, ps, _) => Tii.dupNames [] ps).flatten ++ Tii.dupNames [] dParties ++ Tii.dupNames [] dEnv ++ repeatedTx
   tags := tags ++ ["txs:" ++ toString dTxs.length]
   let err := fieldD obs "error"
   if !(isNull err) then
@@ -43,7 +46,7 @@ def judge (j : Json) : R Verdict := do
   if !(sameSet oParties model.parties) then corr := corr ++ ["parties-keys"]
   if !(sameSet oEnv model.environment) then corr := corr ++ ["environment-keys"]
   let oTxs ← arr (← field obs "txs")
-  if oTxs.length != dTxs.length then spec := spec ++ ["transactions-listed"]
+  if oTxs.length != dTxs.length && repeatedTx.isEmpty then spec := spec ++ ["transactions-listed"]
   for t in oTxs do
     let oParams ← strs (← field t "params")
     let tname ← str (← field t "name")
